@@ -11,8 +11,8 @@ Import ListNotations.
 Require Import OJD.Base OJD.Lexer OJD.Json OJD.Schema OJD.Generated OJD.SchemaSpec OJD.SchemaOrder
                OJD.Charsets OJD.Numerals OJD.FsRefs OJD.CreateJob OJD.RangeExpr OJD.Comb OJD.ScopeWalk
                OJD.DepGraph OJD.DepGraphSpec OJD.Parse OJD.Validators OJD.Accept
-               OJD.WF OJD.AcceptMono OJD.AcceptRules OJD.AcceptCap OJD.AcceptDeps OJD.AcceptProofs.
-Require Import OJDProps.C01.
+               OJD.WF OJD.AcceptMono OJD.AcceptRules OJD.AcceptCap OJD.AcceptDeps OJD.AcceptProofs OJD.AcceptComplete.
+Require Import OJDProps.C01rules.
 Local Open Scope string_scope.
 Local Open Scope list_scope.
 
@@ -202,22 +202,12 @@ Theorem C02_complete_env : forall classify j,
 Proof. exact env_complete. Qed.
 Print Assumptions C02_complete_env.
 
-Theorem C02_flip : forall classify j,
-  ~ WFdoc classify "JobTemplate" j -> forall v, decode_job classify j <> Ok v.
-Proof. exact job_flip. Qed.
-Print Assumptions C02_flip.
-
-Theorem C02_flip_env : forall classify j,
-  ~ WFdoc classify "EnvironmentTemplate" j -> forall v, decode_env classify j <> Ok v.
-Proof. exact env_flip. Qed.
-Print Assumptions C02_flip_env.
 
 (* ---------------------------------------------------------------- non-vacuity *)
 (* the example template of C01.v is well-formed; each of its mutations is not *)
 Example C02_complete_nonvacuous : WFdoc ascii_class "JobTemplate" ex_good.
 Proof.
-  apply (C01_sound ascii_class ex_good) with (v := match decode_job ascii_class ex_good with Ok v => v | Raise _ => MNone end).
-  vm_compute. reflexivity.
+  apply WFdoc_iff_spec_parse. eexists. vm_compute. reflexivity.
 Qed.
 
 Example C02_structural_nonvacuous : is_ok (decode_job_on spec_schema ascii_class ex_good) = true.
